@@ -5,6 +5,7 @@ pub mod cfgs;
 pub mod cmp;
 pub mod progen;
 pub mod refl;
+pub mod replay;
 pub mod props;
 pub mod report;
 pub mod run;
